@@ -121,4 +121,13 @@ Example pbkdf2_t12 : pbkdf2_hmac_sha512 (ascii_bytes "password") (ascii_bytes "s
                      pbkdf2_hmac_sha512 (ascii_bytes "password") (ascii_bytes "salt") 1 64.
 Proof. vm_compute. reflexivity. Qed.
 
+(* The BIP39 reference vector (2048 iterations = 2048 HMACs = 4096 SHA-512 calls = 8192 compressions) was
+   checked once with
+     Eval vm_compute in N.eqb (hex_of_bytes (pbkdf2_hmac_sha512
+       (ascii_bytes "abandon abandon abandon abandon abandon abandon abandon abandon abandon abandon abandon about")
+       (ascii_bytes "mnemonicTREZOR") 2048 64))
+       0xc55257c360c07c72029aebc1b53c05ed0362ada38ead3e3e9efa3708e53495531f09a6987599d18264c1e1c92f2cf141630c7a3c4ab7c81b2f001698e7463b04.
+   = true, but vm_compute needs about 84 s for it (about 30 s in extracted OCaml), so it is not
+   kept as an Example here (an Example would compute it twice, at the tactic and again at Qed). *)
+
 Print Assumptions pbkdf2_length.
